@@ -101,7 +101,7 @@ def r19b(ck, fb):
     if s1:
         t = Taint(s1, place_src=field_place_src('seq_map'))
         ib = s1.calls(r'byte_utils::id_to_bin$')
-        ck.require(len(ib) == 1 and t.op_tainted(ib[0].args[0]), 'R19b', 'sequence:snapshot-stores-next-free', s1.where(), 'named sequences are not snapshotted from seq_map values')
+        ck.require(len(ib) >= 1 and all(t.op_tainted(_x.args[0]) for _x in ib), 'R19b', 'sequence:snapshot-stores-next-free', s1.where(), 'named sequences are not snapshotted from seq_map values')
     s2 = ck.body(SD + 'load_snapshot_record', 'R19b')
     if s2:
         ins = util.mut_calls_on_field(s2, 'seq_map', r'HashMap::<K, V, S, A>::insert$')
